@@ -14,7 +14,7 @@ for d in sorted(os.listdir(os.path.join(V, "seeded"))):
     title = re.sub(r"^[Mm]\d+\s*[-:–—]+\s*", "", title)
     note = m.get("note", "")
     sig = (m.get("signatures") or "").strip(";").replace(";", ", ")
-    rows.append((m["id"], title[:110], "caught" if m.get("detected") else "MISSED", sig if m.get("detected") else note))
+    rows.append((m["id"], title[:110], "caught" if m.get("detected") else "MISSED", (sig + (" — " + note if note else "")) if m.get("detected") else note))
 out = ["| id | change (one line, from the author's README) | result | signature that fired / why missed |", "|---|---|---|---|"]
 for r in rows:
     out.append("| %s | %s | %s | %s |" % r)
